@@ -6,8 +6,8 @@ from gen import i1_line, i2_line, e_array
 from vlib import poly_eval
 
 ID = "C16"
-LEAN_MODULES = ["NdInterp.Props.C16", "NdInterp.Props.RatTie"]
-THEOREM_FILES = [("NdInterp/Props/C16.lean", "C16_")]
+LEAN_MODULES = ["NdInterp.Props.C16", "NdInterp.Props.RatTie", "NdInterp.Props.IntTie"]
+THEOREM_FILES = [("NdInterp/Props/C16.lean", "C16_"), ("NdInterp/Props/IntTie.lean", "C16_")]
 RULE = ("exact at Q: random polynomials with dyadic coefficients, all axis kinds, n from the strategy's minimum upwards, lanes holding "
         "different polynomials, dense in-range and extrapolated queries (up to 3 spans outside). Linear/affine, Bilinear/bilinear, "
         "NotAKnot/cubic (n>=4) and parabola (n=3), Natural/lines, Mixed with FirstDeriv p'(end) / SecondDeriv p''(end) / NotAKnot per "
